@@ -369,7 +369,7 @@ Proof.
   intros prog pfam lru0 rank NF sfuel fm Hrank Hc s ext Hst.
   assert (G : PTop.restore_good prog pfam lru0 NF sfuel fm).
   { destruct Hc as [Hc | [Hf Hs]].
-    - exact (PTop.restore_good_closed prog pfam lru0 NF sfuel fm Hc).
+    - exact (PTop.restore_good_closed prog pfam lru0 rank (PSem.calls_below_tb prog rank Hrank) NF sfuel fm Hc).
     - exact (PTop.restore_good_flat prog pfam lru0 rank (PSem.calls_below_tb prog rank Hrank) NF sfuel fm Hf Hs). }
   split.
   - intros Hok. exact (proj1 G s ext Hok Hst).
@@ -443,6 +443,51 @@ Check C26_results_low :
       results_ok prog noeq pfam fams lru0 NF sfuel fuel (pinit iv (fun _ => 0) lru0) ops.
 Print Assumptions C26_results_low.
 
+(* (P4) strictly: in the three settings above the ONLY panic of the base model that can unwind a
+   request is an injected fault while some fault switch is on — in particular the
+   backdate-violation assertion of debug builds is unreachable: changed_at stamps never
+   decrease (PInv.ext_mono), across re-execution, eviction, snapshot and restore (the stamp of a
+   memo that a restore dropped is kept in a ghost table, PInv.phi). *)
+Theorem C26_results_strict :
+  forall (prog : qkey -> body) (noeq : qkey -> bool) (pfam : N -> bool) (fams : list N)
+         (lru0 : N -> lru_state) (rank : qkey -> nat),
+    calls_below prog rank -> forall NF : nat, (forall q, (rank q < NF)%nat) ->
+    forall fuel sfuel : nat, (forall p, (rank p < fuel)%nat) ->
+    (forall (iv : ikey -> val) (idur : ikey -> dur) (ops : list op),
+       (forall i, idur i <= 3) -> Forall dur_op ops -> wf_ops false false ops ->
+       ~ In ORestore ops \/ persisted_closed prog pfam ->
+       known_class_free prog noeq pfam fams lru0 sfuel fuel (pinit iv idur lru0) ops ->
+       results_ok_strict prog noeq pfam fams lru0 NF sfuel fuel (pinit iv idur lru0) ops) /\
+    ((forall p, (S (rank p) < sfuel)%nat) ->
+     forall (iv : ikey -> val) (ops : list op),
+       Forall low_op ops -> wf_ops false false ops ->
+       known_class_free prog noeq pfam fams lru0 sfuel fuel (pinit iv (fun _ => 0) lru0) ops ->
+       results_ok_strict prog noeq pfam fams lru0 NF sfuel fuel (pinit iv (fun _ => 0) lru0) ops).
+Proof.
+  intros prog noeq pfam fams lru0 rank Hrank NF Hb fuel sfuel Hf. split.
+  - intros iv idur ops Hid Hd Hw [Hn | Hc] Hk.
+    + exact (PTop.results_no_restore_strict prog noeq pfam fams lru0 rank Hrank NF Hb fuel sfuel Hf iv idur ops Hid Hd Hw Hn Hk).
+    + exact (PTop.results_closed_strict prog noeq pfam fams lru0 rank Hrank NF Hb fuel sfuel Hf Hc iv idur ops Hid Hd Hw Hk).
+  - intros Hs iv ops Hl Hw Hk.
+    exact (PTop.results_low_strict prog noeq pfam fams lru0 rank Hrank NF Hb fuel sfuel Hf Hs iv ops Hl Hw Hk).
+Qed.
+Check C26_results_strict :
+  forall (prog : qkey -> body) (noeq : qkey -> bool) (pfam : N -> bool) (fams : list N)
+         (lru0 : N -> lru_state) (rank : qkey -> nat),
+    calls_below prog rank -> forall NF : nat, (forall q, (rank q < NF)%nat) ->
+    forall fuel sfuel : nat, (forall p, (rank p < fuel)%nat) ->
+    (forall (iv : ikey -> val) (idur : ikey -> dur) (ops : list op),
+       (forall i, idur i <= 3) -> Forall dur_op ops -> wf_ops false false ops ->
+       ~ In ORestore ops \/ persisted_closed prog pfam ->
+       known_class_free prog noeq pfam fams lru0 sfuel fuel (pinit iv idur lru0) ops ->
+       results_ok_strict prog noeq pfam fams lru0 NF sfuel fuel (pinit iv idur lru0) ops) /\
+    ((forall p, (S (rank p) < sfuel)%nat) ->
+     forall (iv : ikey -> val) (ops : list op),
+       Forall low_op ops -> wf_ops false false ops ->
+       known_class_free prog noeq pfam fams lru0 sfuel fuel (pinit iv (fun _ => 0) lru0) ops ->
+       results_ok_strict prog noeq pfam fams lru0 NF sfuel fuel (pinit iv (fun _ => 0) lru0) ops).
+Print Assumptions C26_results_strict.
+
 (* non-vacuity of the three theorems: a persisted-closed program with a write of durability
    HIGH, a snapshot, a write that the restore undoes, a restore, a write to a leaf of a restored
    memo — the hypotheses hold and the requests return what the theorem says; a history without
@@ -481,6 +526,35 @@ Check C26_example_results :
    Forall low_op ops_flat /\ wf_ops false false ops_flat /\ ~ persisted_closed prog_pq Examples.pfam) /\
   results_ok prog_f4 Examples.noeq Examples.pfam [1] lru2 FUEL FUEL FUEL (pinit Examples.iv (fun _ => 0) lru2) ops_f4.
 Print Assumptions C26_example_results.
+
+(* computed only (NOT an instance of a theorem: durabilities above LOW together with flattening
+   is the open case; replayed on the real crate with the same values, events and states): a
+   HIGH-durability persisted memo validated by the durability short-cut before the snapshot,
+   flattened through a non-persisted function, restored; a synthetic HIGH write leaves it valid
+   (validated through its flattened leaf), a HIGH write to the leaf invalidates it, and so does
+   a write that makes the leaf LOW again *)
+Theorem C26_example_high_durability_flattened :
+  let r := run prog_pq [] nolru ops_high in
+  snd r = [POk 0; POk 5; POk 0; POk 5; POk 0; POk 0; POk 5; POk 0; POk 5; POk 0; POk 8; POk 0; POk 0;
+           POk 0; POk 9; POk 8] /\
+  wf_ops false false ops_high /\
+  List.rev (d_log (ps_db (fst r)))
+  = [EvExec (0, 0); EvExec (3, 0); EvValidate (0, 0); EvValidate (0, 0); EvExec (0, 0); EvExec (3, 0);
+     EvExec (0, 0); EvExec (3, 0)] /\
+  option_map (fun m => (m_dur m, m_verified m, m_edges m))
+    (d_memo (ps_db (fst (run prog_pq [] nolru (firstn 6 ops_high)))) (0, 0)) = Some (2, 3, [EIn (0, 0)]).
+Proof. exact ex_high_results. Qed.
+Check C26_example_high_durability_flattened :
+  let r := run prog_pq [] nolru ops_high in
+  snd r = [POk 0; POk 5; POk 0; POk 5; POk 0; POk 0; POk 5; POk 0; POk 5; POk 0; POk 8; POk 0; POk 0;
+           POk 0; POk 9; POk 8] /\
+  wf_ops false false ops_high /\
+  List.rev (d_log (ps_db (fst r)))
+  = [EvExec (0, 0); EvExec (3, 0); EvValidate (0, 0); EvValidate (0, 0); EvExec (0, 0); EvExec (3, 0);
+     EvExec (0, 0); EvExec (3, 0)] /\
+  option_map (fun m => (m_dur m, m_verified m, m_edges m))
+    (d_memo (ps_db (fst (run prog_pq [] nolru (firstn 6 ops_high)))) (0, 0)) = Some (2, 3, [EIn (0, 0)]).
+Print Assumptions C26_example_high_durability_flattened.
 
 (* the positive statement outside the known class without an extra hypothesis, kept visible.
    PROVED: without restore (C26_results_no_restore), with persisted_closed (C26_results_partial),
